@@ -86,8 +86,8 @@ INFO = dict(
                "casts; theorem, in a model with TWO storage kinds int | float: no float sample is ever truncated into "
                "integer storage, whatever the kinds and their order, and an iterator that ends early raises; narrowing "
                "WITHIN a kind - an int32 template followed by int64 values, a float32 template followed by float64 "
-               "samples - is not modelled: numpy's same_kind casting admits it and as_matrix then wraps / rounds, "
-               "finding with patch notes/fixes/C11-as-matrix-narrowing-within-kind.diff).  The property theorems are then proved about `Src.*` and "
+               "samples - is not modelled (numpy's same_kind casting admitted it and as_matrix wrapped / rounded: "
+               "found by this check and repaired in /repo, casting='safe'; the narrow-template cases of every run judge it).  The property theorems are then proved about `Src.*` and "
                "restated about the translated definitions: the translated cov formula gives np.cov of the "
                "concatenated data (gen_cov_update_exact); a translated incremental GMRF fed any list of data matrices "
                "does not raise in the model (the block inverse, indexing and slicing are total stand-ins: a singular "
@@ -128,9 +128,9 @@ INFO = dict(
              "stateOfModel); GMRFVectorModel.__init__, _create_*_precision, PCAVectorModel.__init__ and pca are not "
              "translated in C11 (C12 / C10 translate them; here: correspondence and oracle)",
              "as_matrix: two storage kinds only; narrowing within a kind (int64 into an int32 template, float64 into a "
-             "float32 template) is outside the model; on /repo it wraps / rounds (finding, "
-             "notes/fixes/C11-as-matrix-narrowing-within-kind.diff); the cases that need the wider type are skipped and "
-             "counted while the defect is present and run once it is repaired",
+             "float32 template) is outside the model; /repo used to wrap / round there (found by this check, repaired: "
+             "notes/fixes/C11-as-matrix-narrowing-within-kind.diff); decided by the oracle on the narrow-template cases "
+             "of every run",
              "increment(ndarray, n_samples=k) on the vector models: the count follows the argument, not the array "
              "(_data_to_matrix does not cut an array), as coded and as modelled (Src.dataToMatrix); the documented use "
              "of n_samples is an iterator, so this is not judged; all chain theorems fix n_samples = None",
@@ -1452,32 +1452,42 @@ def directed_narrowing(run):
     type (int32 then int64 values beyond 2**31, float32 then float64 values with more than 24 significant bits).
     as_matrix allocates in the template's dtype and numpy's `same_kind` casting lets the later samples wrap / round:
     the batch model (one template for everything) then differs from the incremental one (a template per chunk).
-    Finding with patch notes/fixes/C11-as-matrix-narrowing-within-kind.diff; while the defect is present the cases are
-    skipped and counted, they run (and a regression is a violation) once it is repaired."""
+    Found by this check (notes/fixes/C11-as-matrix-narrowing-within-kind.diff, applied to /repo): the cases run on every
+    check, a regression is a violation."""
     import numpy as np
     ctx = run.ctx
     w = as_matrix_narrows()
     if w is not None:
-        ctx.count("skipped:as_matrix-narrows-within-a-kind")
-        ctx.notes["as_matrix_narrowing"] = (
-            "menpo.math.as_matrix narrows within a kind: " + w + "; incremental != batch for object-level models whose "
-            "first sample has the narrower dtype; proposed repair notes/fixes/C11-as-matrix-narrowing-within-kind.diff "
-            "(casting='safe'); the cases are skipped until it is applied")
-        return
+        # repaired in /repo (casting="safe"); should it come back the cases below report it with their own replays, the
+        # probe only adds the smallest witness to the evidence
+        ctx.notes["as_matrix_narrowing"] = "menpo.math.as_matrix narrows within a kind: " + w
     rng = common.random.Random(1300 + ctx.seed)
     for centred in (True, False):
-        for wide, narrow, big in (("int64", "int32", float(2 ** 33)), ("float64", "float32", 1.0 / 2 ** 30)):
-            for _ in range(300):
-                X = np.array([[float(rng.randint(-6, 6)) for _ in range(4)] for _ in range(7)], dtype=float)
-                if narrow == "int32":
-                    X[3:] = X[3:] + big * np.sign(X[3:] + 0.5)      # needs more than 32 bits
-                else:
-                    X[3:] = X[3:] + big                             # needs more than 24 significant bits
-                if pca_data_ok(X, (3, 1, 1, 1, 1), centred, 0.05 if narrow == "int32" else 1e-12):
-                    break
-            else:
-                continue
-            pca_case(run, X, (3, 4), centred, "pointcloud", "narrow-template-then-wide-samples", [narrow, wide])
+        # int32 template, then int64 values outside the int32 range: every value is a small integer times 2**28 (a pure
+        # scaling, so the conditioning is that of the small integers and float64 arithmetic on them is exact); the
+        # initial batch stays below 2**31, the later samples reach +-12 * 2**28.  Wrapped around by a narrowing
+        # as_matrix in the batch model only: eigenvalues off by orders of magnitude.
+        for _ in range(300):
+            K = np.array([[float(rng.randint(-6, 6)) for _ in range(4)] for _ in range(7)], dtype=float)
+            K[3:] = np.array([[float(rng.choice([-12, -10, -9, 9, 10, 12, rng.randint(-7, 7)])) for _ in range(4)]
+                              for _ in range(4)])
+            if np.abs(K[3:]).max() >= 9 and pca_data_ok(K, (3, 1, 1, 1, 1), centred):
+                break
+        else:
+            raise common.Infra("generator: no well-conditioned narrow-template data set found")
+        pca_case(run, K * float(2 ** 28), (3, 4), centred, "pointcloud", "narrow-template-then-wide-samples", ["int32", "int64"])
+        pca_case(run, K * float(2 ** 28), (3, 2, 2), centred, "pointcloud", "narrow-template-then-wide-samples",
+                 ["int32", "int64", "int64"])
+        # float32 template, then float64 samples with more than 24 significant bits: the loss (6e-8 relative) is inside
+        # the tolerance granted to single precision participants, so these cases only exercise the path
+        for _ in range(300):
+            X = np.array([[float(rng.randint(-6, 6)) for _ in range(4)] for _ in range(7)], dtype=float)
+            X[3:] = X[3:] + 1.0 / 2 ** 30
+            if pca_data_ok(X, (3, 1, 1, 1, 1), centred, 0.05):
+                break
+        else:
+            continue
+        pca_case(run, X, (3, 4), centred, "pointcloud", "narrow-template-then-wide-samples", ["float32", "float64"])
 
 
 def ipca_single_precision_noise():
